@@ -17,6 +17,7 @@ pub mod s_reltree;
 pub mod s_tau;
 pub mod s_exprimg;
 pub mod s_dtlat;
+pub mod s_injlat;
 pub mod s_fn;
 pub mod s_inj;
 pub mod s_filter;
@@ -76,6 +77,7 @@ fn streams() -> Vec<(&'static str, GenFn, EvalFn)> {
         ("taukeys", s_tau::gen, s_tau::eval),
         ("exprimg", s_exprimg::gen, s_exprimg::eval),
         ("dtlat", s_dtlat::gen, s_dtlat::eval),
+        ("injlat", s_injlat::gen, s_injlat::eval),
     ]
 }
 
